@@ -18,6 +18,7 @@ package main
 import (
 	"bytes"
 	"encoding/binary"
+	"flag"
 	"fmt"
 	"os"
 	"path/filepath"
@@ -25,6 +26,7 @@ import (
 	"sort"
 	"strconv"
 	"strings"
+	"time"
 	"unsafe"
 
 	"github.com/Ptt-official-app/go-pttbbs/cache"
@@ -311,6 +313,10 @@ func exec(line string) (res result) {
 		return execUpdRec(line, rest[0], rest[1], rest[2])
 	case op == "offconst" && len(rest) == 1:
 		return execOffConst(line, rest[0])
+	case op == "hist" && len(rest) >= 1:
+		return execHist(line, ws)
+	case op == "favfile" && len(rest) == 5:
+		return execFavFile(line, rest)
 	case op == "qry" && len(rest) == 3:
 		return execQry(line, rest[0], rest[1], rest[2])
 	case op == "qryrec" && len(rest) == 2:
@@ -1079,7 +1085,16 @@ func execXWrite(line, tn, is, vals, totals string) (res result) {
 
 // ---- driver loop, generators ------------------------------------------------------------------
 
+// -only conc: the race-detector pass drives the histories and the concurrent saves only.
+var only = flag.String("only", "", "conc: only the hist and favfile ops")
+
+var lastConcIdx = -1
+
 func do(line string, nontrivial bool) result {
+	isConc := strings.HasPrefix(line, "hist ") || strings.HasPrefix(line, "favfile ")
+	if *only == "conc" && !isConc {
+		return result{}
+	}
 	var r result
 	out := hx.CallSync(func() string { r = exec(line); return r.out })
 	if out == "PANIC" {
@@ -1087,6 +1102,9 @@ func do(line string, nontrivial bool) result {
 		r.fails = append(r.fails, fail{"crash:" + strings.Fields(line + " ?")[0], hx.LastPanic})
 	}
 	i := run.Op(r.line, r.out, r.label, nontrivial)
+	if strings.HasPrefix(r.label, "favfile:k=") {
+		lastConcIdx = i
+	}
 	for _, f := range r.fails {
 		run.Fail(i, f.key, f.what)
 	}
@@ -1134,6 +1152,7 @@ func main() {
 	// cache.SetUMoney mirrors the value into the segment: give it a private in-process one (no SysV object)
 	cache.Shm = &cache.SHM{Shm: new(cache.SHMRaw)}
 	defer func() { cache.Shm = nil; env.Close() }()
+	defer raceReport()
 	run.Extra["config"] = cfgName
 	run.Rule = "exhaustive over record types x fields (size/const/field ops; one image per field written by the Go writer and one read by the Go reader/overlay); partial updates and queries on random .PASSWDS images: 1..6 records, every slot incl. first/last, one and two records beyond EOF, torn tails, invalid uids (0, negative, MAX_USERS+1, int32 extremes), MAX_USERS itself (default config); .PASSWD2 absent/short/exact/long; malformed stream: unknown config/type/function, bad hex, bad arity, wrong argument length. nontrivial = reaches compiled code with a well-formed op"
 
@@ -1312,6 +1331,62 @@ func main() {
 		do(fmt.Sprintf("getlvl2 %s %s", c, hx.Hex(r.Bytes([]int{0, 4, 7, 8, 12, 128}[k%6], nil))), true)
 	}
 
+	// ---- histories: a failed write, then further writes ------------------------------------------------
+	failKinds := []string{"enc", "rdonly", "efbig"}
+	if haveDevFull() {
+		failKinds = append([]string{"post", "rec", "email", "passwd", "money"}, failKinds...)
+	} else {
+		run.Note("no /dev/full: the ENOSPC error paths are not driven")
+	}
+	plImage := func() []byte { return randImage(findType("PostLog"), 100, true) }
+	follow := func(k int, nrec int) string {
+		uid := 1 + r.Intn(nrec)
+		switch k % 5 {
+		case 0, 1, 2:
+			fn := updNames[k%5]
+			return fmt.Sprintf("U:%s:%d:%s", fn, uid, hx.Hex(r.Bytes(updArgLen[fn], nil)))
+		case 3:
+			return fmt.Sprintf("R:%d:%s", uid, hx.Hex(passwdImage(1, 0)))
+		}
+		return "A:" + hx.Hex(plImage())
+	}
+	hrounds := 1
+	if run.Thorough() {
+		hrounds = 8
+	}
+	for hr := 0; hr < hrounds; hr++ {
+		for fi, fk := range failKinds {
+			for k := 0; k < 5; k++ {
+				nrec := 2 + r.Intn(3)
+				// failed write, then one write of every kind; then a second write (must be unaffected as well)
+				do(fmt.Sprintf("hist %s %s F:%s:%d %s %s", c, hx.Hex(passwdImage(nrec, 0)), fk, 1+r.Intn(nrec), follow(k, nrec), follow(k+1+fi, nrec)), true)
+			}
+		}
+		// two failures in a row, a failure between two updates, no failure at all
+		for k := 0; k < 5; k++ {
+			nrec := 3
+			f1, f2 := failKinds[r.Intn(len(failKinds))], failKinds[r.Intn(len(failKinds))]
+			do(fmt.Sprintf("hist %s %s F:%s:1 F:%s:2 %s", c, hx.Hex(passwdImage(nrec, 0)), f1, f2, follow(k, nrec)), true)
+			do(fmt.Sprintf("hist %s %s %s F:%s:3 %s A:%s", c, hx.Hex(passwdImage(nrec, 0)), follow(k+2, nrec), f1, follow(k, nrec), hx.Hex(plImage())), true)
+			do(fmt.Sprintf("hist %s %s %s %s", c, hx.Hex(passwdImage(nrec, 0)), follow(k, nrec), follow(k+3, nrec)), true)
+		}
+	}
+	do(fmt.Sprintf("hist %s %s", c, hx.Hex(passwdImage(1, 0))), true)
+	do(fmt.Sprintf("hist %s %s F U:cmbbs.PasswdUpdateEmail:0:%s R:1:00 A:00", c, hx.Hex(passwdImage(1, 0)), strings.Repeat("11", 50)), true)
+
+	// ---- .fav: sequential images, then concurrent saves of different users ---------------------------
+	for _, n := range []int{0, 1, 2, 5, 60} {
+		do(fmt.Sprintf("favfile %s %d %d %d %d 1", c, fav.FAV_VERSION, n, r.Intn(1<<31), r.Intn(128)), true)
+	}
+	nStress := 3
+	if run.Thorough() {
+		nStress = 10
+		stressBudget = 2500 * time.Millisecond
+	}
+	for k := 0; k < nStress; k++ {
+		do(fmt.Sprintf("favfile %s %d %d %d %d %d", c, fav.FAV_VERSION, []int{60, 20, 90}[k%3], r.Intn(1<<31), r.Intn(128), []int{8, 4, 12}[k%3]), true)
+	}
+
 	// ---- malformed stream --------------------------------------------------------------------------
 	other := "prod"
 	for _, l := range []string{
@@ -1322,6 +1397,8 @@ func main() {
 		"upd " + c + " cmbbs.PasswdUpdatePasswd one 0102 00", "upd " + c + " cmbbs.PasswdUpdatePasswd 1 0102 00",
 		"upd " + c + " cmbbs.NoSuch 1 " + strings.Repeat("11", 14) + " 00", "upd " + c + " cmbbs.PasswdUpdateEmail 1 00 00 00",
 		"qry " + c + " cmbbs.NoSuch 1 00", "qry " + c + " cmbbs.PasswdQueryPasswd 1 0g", "qry " + c + " cmbbs.PasswdQueryPasswd",
+		"hist " + c, "hist " + c + " zz", "hist " + c + " 00 X:1", "hist " + c + " 00 U:cmbbs.PasswdUpdateEmail:1", "hist " + c + " 00 R:x:00", "hist " + c + " 00 A:0",
+		"favfile " + c + " 3363 1 1 1", "favfile " + c + " 3363 x 1 1 1",
 		"qryrec " + c + " 1", "updrec " + c + " 1 00 00", "updrec " + c + " 0 " + strings.Repeat("00", 512) + " 00", "updrec " + c + " 1 0 0",
 		"lvl2 " + c + " 0 1 2 0 absent", "lvl2 " + c + " 0 x 1 0 absent", "lvl2 " + c + " 0 1 1 0 xyz",
 		"getlvl2 " + c + " 0", "xread " + c + " NoSuchType 0 00", "xread " + c + " UserecRaw 0 0", "xread " + c + " UserecRaw 999 00",
